@@ -18,8 +18,11 @@
      whole string once more when it contains an escape with upper-case hex, ESCAPES_RE), a "#" in the LAST
      path component starts a URI fragment, the result is normalised -- so a record path can name a location
      outside the root although FileTemplate.format's containment check accepted it;
-   * put: after writing, FileDatastore._extractIngestInfo refuses a location outside the root and the
-     rollback removes the file just written (overwritten); the record path is the decoded location;
+   * put: the formatter writes at write_loc; then FileDatastore._extractIngestInfo refuses a location outside the
+     root, re-reads the location's path relative to the root as a NEW relative ResourcePath (decoded once more when it
+     still contains an upper-case escape, "#" in the last component = fragment) and sizes the file THERE: not found =>
+     FileNotFoundError; every failure rolls back by removing location.uri (not necessarily the file written); the
+     record path is that re-read text;
    * ingest(copy|move): the target is written with overwrite=True, the record path is the (once-decoded)
      template text, NO containment check follows; a refused record insert rolls the transfer back (copy:
      target removed; move: moved back);
@@ -138,6 +141,18 @@ Definition refuse_location (chk : bool) (p : string) : bool := abs_after_decode 
 Definition target_text (p ext : string) : string := set_ext (stage_a p) ext.
 Definition target_loc (p ext : string) : lkey := rel_loc (target_text p ext).
 
+(* Where the FORMATTER writes on put: FormatterV2.write uses file_descriptor.location.uri.updatedExtension(ext), i.e. the
+   extension is replaced on the DECODED, normalised location of the checked text (the last "." of its last component),
+   whereas Location.updateExtension (target_text) cuts the still-encoded text.  The two differ when an escape decodes to
+   "." ("a%2eb": the datastore sizes .../x_a.b.yaml, the formatter wrote .../x_a.yaml).  An empty location (the text
+   normalises to the root itself) would name a sibling of the root: represented as outside. *)
+Definition ext_last (l : lkey) (ext : string) : lkey :=
+  match rev l with
+  | [] => [".."; "<root>" ++ ext]
+  | c :: r => (rev r ++ [(before_last "."%char c ++ ext)%string])%list
+  end.
+Definition write_loc (p ext : string) : lkey := ext_last (rel_loc (stage_a p)) ext.
+
 (* ---- SQL LIKE (SQLite: "%" any run, "_" any one character, ASCII case-insensitive) ------------------- *)
 Definition lower (c : ascii) : ascii :=
   let n := N_of_ascii c in if (65 <=? n)%N && (n <=? 90)%N then ascii_of_N (n + 32) else c.
@@ -255,9 +270,14 @@ Definition step_v (chk : bool) (s : state) (x : op) : state * outcome :=
           if held_any s [id] then (s, Refused Conflict)
           else
             let l := target_loc p ext in
+            let f1 := fset (fs s) (write_loc p ext) c in
             if inside l
-            then (add_recs s [(id, join_slash l)] (fset (fs s) l c), Done)
-            else (with_fs s (fdel (fs s) l), Refused RuntimeErr)
+            then let rp := join_slash l in
+                 match fget f1 (loc rp) with
+                 | Some _ => (add_recs s [(id, stage_a (strip_frag rp))] f1, Done)
+                 | None => (with_fs s (fdel f1 l), Refused NotFound)
+                 end
+            else (with_fs s (fdel f1 l), Refused RuntimeErr)
       end
   | Ingest m ids fr ext src =>
       match fr with
@@ -344,6 +364,16 @@ Definition target_inside (x : op) : bool :=
 (* every relative record path names a location inside the root (invariant under guard 3) *)
 Definition recs_inside (s : state) : bool :=
   forallb (fun r => is_abs (snd r) || inside (loc (snd r))) (recs s).
+
+(* guard 5: on put the formatter writes where the datastore then looks (and where the record, read back, points):
+   false only for names with percent-escapes that decode to "." or that are encoded three times *)
+Definition put_coherent (x : op) : bool :=
+  match x with
+  | Put _ (FOk p) ext _ =>
+      lkey_eqb (write_loc p ext) (target_loc p ext)
+      && lkey_eqb (loc (join_slash (target_loc p ext))) (target_loc p ext)
+  | _ => true
+  end.
 
 (* the staging file a move ingest removes at the caller's request *)
 Definition moved_source (s : state) (x : op) (l : lkey) : bool :=
